@@ -164,6 +164,8 @@ class CallMixin:
         mod, fdef = self.lookup_function(qn)
         params = self.bind_params(fdef, args, kwargs, mod, node)
         c = self.contracts.get(qn)
+        if qn.split("::")[-1] in (self.contract.get("inline_calls") or []):
+            return self.inline_call(qn, mod, fdef, params, node, st, nested)
         if c is not None and qn != self.qname or (c is not None and c.get("recursive")):
             return self.apply_contract(qn, c, params, node, st)
         if c is None and self.has_loops(fdef) and qn not in self.inline_ok:
